@@ -391,6 +391,38 @@ fn sweep(cfg: Cfg, out: &mut Out, s: &Scheme, avx: bool) {
             }
         }
     }
+    // needles that are different byte strings but look alike under a lossy rendering (they
+    // differ only in bytes that are not UTF-8), compiled one after another in this process and
+    // only then executed: anything remembered from one compilation must not leak into another
+    if cfg.shard == 0 {
+        let families: [&[&[u8]]; 5] = [
+            &[b"caf\xe9", b"caf\xe8", b"caf\xc3\xa9", b"caf\xef\xbf\xbd"],
+            &[b"\xff\xfe", b"\xfe\xff", b"\xff\xff", b"\xef\xbf\xbd\xef\xbf\xbd"],
+            &[b"\x80abc", b"\x81abc", b"\xbfabc"],
+            &[b"ab\xc3", b"ab\xc4", b"ab\xe2\x82"],
+            &[b"x\xf0\x9f\x98y", b"x\xf0\x9f\x99y", b"x\xf0\x9f\x98\x80y"],
+        ];
+        for fam in families {
+            let compiled: Vec<Option<Filter>> = fam.iter().enumerate().map(|(i, p)| compile(s, p, None, i % 2 == 1).ok().map(|x| x.0)).collect();
+            for (i, p) in fam.iter().enumerate() {
+                let Some(f) = &compiled[i] else {
+                    let op = format!("contains - {} - {}", hex(p), avx as u8);
+                    out.case(&op, "compile-failed", None, &["compile.failed"]);
+                    continue;
+                };
+                for q in fam.iter() {
+                    for (pre, post) in [(&b""[..], &b""[..]), (&b"zz"[..], &b"zz"[..]), (&b"\xff"[..], &b"caf"[..])] {
+                        let mut hay = pre.to_vec();
+                        hay.extend_from_slice(q);
+                        hay.extend_from_slice(post);
+                        let ans = exec(s, f, &hay);
+                        let op = format!("contains {} {} - {}", hex(&hay), hex(p), avx as u8);
+                        out.case(&op, &ans, Some(&op), &["lookalike-needles", if ans == "true" { "ans.true" } else { "ans.other" }]);
+                    }
+                }
+            }
+        }
+    }
     out.notes.push(format!(
         "contains sweep (avx={}): needle lengths 0..={max_len}, <= {} needles per length, every anchor 1..len-1, haystack lengths <= {MAX_HAY}",
         avx as u8,
